@@ -19,6 +19,55 @@ impl Default for GdsDateTime { fn default() -> Self { GdsDateTime { year: 0, mon
 pub open spec fn pwf(p: GdsParser) -> bool { p.rdr.source.wf() && p.numread <= p.rdr.source.pos / 4 + 1 }
 /// termination measure: unread bytes, plus one while the look-ahead record is not ENDLIB
 pub open spec fn pm(p: GdsParser) -> int { p.rdr.source.rest().len() + (if p.nxt is EndLib { 0int } else { 1int }) }
+/// the record contents of the parser's data, read front to back by the independent decoder of C02
+pub open spec fn pcs(p: GdsParser) -> Seq<Content> { cstream(p.rdr.source.data@) }
+/// STREAM POSITION: `k` records have been decoded — the look-ahead is record k-1 of the stream, the unread bytes hold records k, k+1, ...
+pub open spec fn at(p: GdsParser, k: int) -> bool {
+    1 <= k <= pcs(p).len() && content(p.nxt) == pcs(p)[k - 1] && cstream(p.rdr.source.rest()) == pcs(p).skip(k)
+}
+/// the position is determined by the state: the number of records of the stream minus the number still unread
+pub open spec fn kof(p: GdsParser) -> int { pcs(p).len() - cstream(p.rdr.source.rest()).len() }
+pub proof fn lemma_at_kof(p: GdsParser, k: int) requires at(p, k) ensures k == kof(p) { assert(pcs(p).skip(k).len() == pcs(p).len() - k); }
+/// trace `ts` is what was consumed between parser states `pre` and `post`: the position moved by its length and its contents are the stream's
+pub open spec fn tied(pre: GdsParser, post: GdsParser, ts: Seq<GdsRecord>) -> bool {
+    forall|k: int| #[trigger] at(pre, k) ==> at(post, k + ts.len()) && contents(ts) =~= pcs(pre).subrange(k - 1, k - 1 + ts.len())
+}
+/// contents `cs` are what was consumed between parser states `pre` and `post`: the position moved by their number and they are the stream's next records
+pub open spec fn tied_c(pre: GdsParser, post: GdsParser, cs: Seq<Content>) -> bool {
+    forall|k: int| #[trigger] at(pre, k) ==> at(post, k + cs.len()) && cs =~= pcs(pre).subrange(k - 1, k - 1 + cs.len())
+}
+pub proof fn lemma_tied_compose(p0: GdsParser, p1: GdsParser, p2: GdsParser, a: Seq<Content>, b: Seq<Content>)
+    requires tied_c(p0, p1, a), tied_c(p1, p2, b), p1.rdr.source.data@ == p0.rdr.source.data@, p2.rdr.source.data@ == p0.rdr.source.data@,
+    ensures tied_c(p0, p2, a + b),
+{
+    assert forall|k: int| #[trigger] at(p0, k) implies at(p2, k + (a + b).len()) && (a + b) =~= pcs(p0).subrange(k - 1, k - 1 + (a + b).len()) by {
+        assert(at(p1, k + a.len())); assert(at(p2, k + a.len() + b.len()));
+        let c = pcs(p0);
+        assert(b =~= c.subrange(k + a.len() - 1, k + a.len() - 1 + b.len()));
+        assert(c.subrange(k - 1, k - 1 + a.len() + b.len()) =~= c.subrange(k - 1, k - 1 + a.len()) + c.subrange(k - 1 + a.len(), k - 1 + a.len() + b.len()));
+    }
+}
+/// the MAG / ANGLE records parse_strans consumed between `pre` and `post` to read transform `s` (its postcondition says there are such)
+pub open spec fn strans_ts(pre: GdsParser, post: GdsParser, s: GdsStrans) -> Seq<GdsRecord> { choose|ts: Seq<GdsRecord>| #[trigger] strans_fold(ts, s) && tied(pre, post, ts) }
+/// `sub` are the contents of the MAG / ANGLE records transform `s` was read from
+pub open spec fn strans_read(sub: Seq<Content>, s: GdsStrans) -> bool { exists|ts: Seq<GdsRecord>| strans_fold(ts, s) && #[trigger] contents(ts) == sub }
+/// decoding one more record (what read_record guarantees, `rec_at`) moves the position by one
+pub proof fn lemma_at_step(p0: GdsParser, p1: GdsParser, k: int)
+    requires at(p0, k), p1.rdr.source.data@ == p0.rdr.source.data@, p0.rdr.source.wf(), p1.rdr.source.wf(), p1.rdr.source.pos >= p0.rdr.source.pos + 4,
+        rec_at(p0.rdr.source.rest(), p1.nxt, p1.rdr.source.pos - p0.rdr.source.pos),
+    ensures at(p1, k + 1),
+{
+    let b = p0.rdr.source.rest(); let n = p1.rdr.source.pos - p0.rdr.source.pos;
+    lemma_decode_determined(p1.nxt, b.subrange(4, n));
+    assert(rec_total(b) == n);
+    assert(content_of_bytes(b) == content(p1.nxt));
+    assert(cstream(b) == seq![content_of_bytes(b)] + cstream(b.skip(n)));
+    assert(p1.rdr.source.rest() =~= b.skip(n));
+    let cs = pcs(p0);
+    assert(cstream(b)[0] == cs.skip(k)[0]);
+    assert(cstream(b.skip(n)) =~= cstream(b).skip(1));
+    assert(cs.skip(k).skip(1) =~= cs.skip(k + 1));
+}
 /// `rec` decodes the record of `n` bytes at the head of `b` (what read_record guarantees)
 pub open spec fn rec_at(b: Seq<u8>, rec: GdsRecord, n: int) -> bool {
     header_ok(b) && n == de16(b[0], b[1]) && b.len() >= n && rec_num(rec) == b[2] && rec_dtype(rec) == b[3] && payload_matches(rec, b.subrange(4, n))
@@ -50,6 +99,10 @@ impl GdsParser {
 //|             && rec_at(old(self).rdr.source.rest(), final(self).nxt, final(self).rdr.source.pos - old(self).rdr.source.pos),
 //|         r is Ok ==> pm(*final(self)) <= pm(*old(self)) && (!(old(self).nxt is EndLib) ==> pm(*final(self)) < pm(*old(self))),
 //|         r is Err ==> pm(*final(self)) <= pm(*old(self)),
+//|         // stream position: the record returned is record k-1 of the stream, and the position moves on by exactly one
+//|         forall|k: int| #[trigger] at(*old(self), k) && r is Ok ==> r->Ok_0 == old(self).nxt && (if old(self).nxt is EndLib { at(*final(self), k) } else { at(*final(self), k + 1) }),
+//@   before /^        Ok\(rv\)$/
+//|         proof { assert forall|k: int| #[trigger] at(*old(self), k) implies at(*self, k + 1) by { lemma_at_step(*old(self), *self, k); } }
 //@ end
 //@ fn gds21/src/read.rs :: impl<R> GdsParser<R> :: fn peek
 //@   ret r
@@ -64,6 +117,15 @@ impl GdsParser {
 //|         // PROPATTR must be followed immediately by PROPVALUE, whose string becomes the value
 //|         r is Ok ==> r->Ok_0.attr == attr && old(self).nxt is PropValue && r->Ok_0.value == old(self).nxt->PropValue_0,
 //|         !(old(self).nxt is PropValue) ==> r is Err,
+//|         // stream position: exactly the PROPVALUE record is consumed
+//|         forall|k: int| #[trigger] at(*old(self), k) && r is Ok ==> at(*final(self), k + 1) && pcs(*old(self))[k - 1] == cs(0x2C, string_bytes(&r->Ok_0.value)),
+//@   before1 /let value = if let GdsRecord::PropValue\(v\) = self\.next\(\)\?/
+//|         let ghost pre = *self;
+//@   before /^        Ok\(GdsProperty \{ attr, value \}\)$/
+//|         proof {
+//|             assert(content(old(self).nxt) == cs(0x2C, string_bytes(&value)));
+//|             assert forall|k: int| #[trigger] at(*old(self), k) implies at(*self, k + 1) && pcs(*old(self))[k - 1] == cs(0x2C, string_bytes(&value)) by { assert(at(pre, k)); }
+//|         }
 //@ end
 //@ fn gds21/src/read.rs :: impl<R> GdsParser<R> :: fn parse_strans
 //@   ret r
@@ -76,21 +138,30 @@ impl GdsParser {
 //|         (r is Ok && old(self).nxt is Mag) ==> r->Ok_0.mag is Some,
 //|         (r is Ok && old(self).nxt is Angle) ==> r->Ok_0.angle is Some,
 //|         // the magnification / angle are those of the MAG / ANGLE records consumed (the last of each)
-//|         r is Ok ==> exists|tr: Seq<GdsRecord>| #[trigger] strans_fold(tr, r->Ok_0),
+//|         // stream position: exactly the MAG / ANGLE records of `tr` are consumed, and they are the next records of the stream
+//|         r is Ok ==> exists|tr: Seq<GdsRecord>| #[trigger] strans_fold(tr, r->Ok_0) && tied(*old(self), *final(self), tr),
 //@   before /^        loop \{$/
 //|         let ghost mut tr: Seq<GdsRecord> = Seq::empty();
 //@   loop 1
 //|             invariant pwf(*self), pm(*self) <= pm(*old(self)), self.rdr.source.data@ == old(self).rdr.source.data@,
 //|                 strans_flags_ok(s, d0, d1), strans_fold(tr, s),
+//|                 forall|k: int| #[trigger] at(*old(self), k) ==> at(*self, k + tr.len()) && contents(tr) =~= pcs(*old(self)).subrange(k - 1, k - 1 + tr.len()),
 //|                 (!(old(self).nxt is Mag) && !(old(self).nxt is Angle)) ==> (s.mag is None && s.angle is None && *self == *old(self)),
 //|                 old(self).nxt is Mag ==> (s.mag is Some || *self == *old(self)),
 //|                 old(self).nxt is Angle ==> (s.angle is Some || *self == *old(self)),
 //|             ensures !(self.nxt is Mag), !(self.nxt is Angle), strans_fold(tr, s),
+//|                 forall|k: int| #[trigger] at(*old(self), k) ==> at(*self, k + tr.len()) && contents(tr) =~= pcs(*old(self)).subrange(k - 1, k - 1 + tr.len()),
 //|             decreases pm(*self),
 //@   before /match self\.peek\(\) \{/
-//|             let ghost s0 = s; let ghost r0 = self.nxt;
+//|             let ghost s0 = s; let ghost r0 = self.nxt; let ghost pre0 = *self;
 //@   loopend 1
 //|             proof {
+//|                 assert forall|k: int| #[trigger] at(*old(self), k) implies at(*self, k + tr.len() + 1) && contents(tr.push(r0)) =~= pcs(*old(self)).subrange(k - 1, k + tr.len()) by {
+//|                     let kk = k + tr.len(); assert(at(pre0, kk)); assert(content(r0) == pcs(pre0)[kk - 1]);
+//|                     let cs_ = pcs(*old(self));
+//|                     assert(cs_.subrange(k - 1, kk) =~= cs_.subrange(k - 1, kk - 1).push(cs_[kk - 1]));
+//|                     assert(contents(tr.push(r0)) =~= contents(tr).push(content(r0)));
+//|                 }
 //|                 let tr1 = tr.push(r0);
 //|                 assert(tr1.drop_last() =~= tr); assert(tr1.last() == r0);
 //|                 assert(strans_step(s0, r0, s));
@@ -140,6 +211,65 @@ pub open spec fn strans_fold(tr: Seq<GdsRecord>, s: GdsStrans) -> bool decreases
     if tr.len() == 0 { s.mag is None && s.angle is None }
     else { exists|s0: GdsStrans| strans_fold(tr.drop_last(), s0) && #[trigger] strans_step(s0, tr.last(), s) }
 }
+/// `seg` are the contents of element `e` in the stream: its opening record, the records its parser consumed building it, ENDEL
+pub open spec fn elem_seg(e: GdsElement, seg: Seq<Content>) -> bool {
+    match e {
+        GdsElement::GdsBoundary(x) => exists|cc: Seq<Content>| #[trigger] parse_boundary_from(x, cc) && seg == seq![c0(0x08)] + cc.push(c0(0x11)),
+        GdsElement::GdsPath(x) => exists|cc: Seq<Content>| #[trigger] parse_path_from(x, cc) && seg == seq![c0(0x09)] + cc.push(c0(0x11)),
+        GdsElement::GdsStructRef(x) => exists|cc: Seq<Content>| #[trigger] parse_struct_ref_from(x, cc) && seg == seq![c0(0x0A)] + cc.push(c0(0x11)),
+        GdsElement::GdsArrayRef(x) => exists|cc: Seq<Content>| #[trigger] parse_array_ref_from(x, cc) && seg == seq![c0(0x0B)] + cc.push(c0(0x11)),
+        GdsElement::GdsTextElem(x) => exists|cc: Seq<Content>| #[trigger] parse_text_elem_from(x, cc) && seg == seq![c0(0x0C)] + cc.push(c0(0x11)),
+        GdsElement::GdsNode(x) => exists|cc: Seq<Content>| #[trigger] parse_node_from(x, cc) && seg == seq![c0(0x15)] + cc.push(c0(0x11)),
+        GdsElement::GdsBox(x) => exists|cc: Seq<Content>| #[trigger] parse_box_from(x, cc) && seg == seq![c0(0x2D)] + cc.push(c0(0x11)),
+    }
+}
+/// what the element parser of `e`'s kind guarantees between states `pre` and `post`
+pub open spec fn elem_post(pre: GdsParser, post: GdsParser, e: GdsElement) -> bool {
+    match e {
+        GdsElement::GdsBoundary(x) => parse_boundary_post(pre, post, x),
+        GdsElement::GdsPath(x) => parse_path_post(pre, post, x),
+        GdsElement::GdsStructRef(x) => parse_struct_ref_post(pre, post, x),
+        GdsElement::GdsArrayRef(x) => parse_array_ref_post(pre, post, x),
+        GdsElement::GdsTextElem(x) => parse_text_elem_post(pre, post, x),
+        GdsElement::GdsNode(x) => parse_node_post(pre, post, x),
+        GdsElement::GdsBox(x) => parse_box_post(pre, post, x),
+    }
+}
+/// the contents the element parser consumed for `e` (before ENDEL): a witness of its postcondition
+pub open spec fn elem_cc(pre: GdsParser, post: GdsParser, e: GdsElement) -> Seq<Content> {
+    match e {
+        GdsElement::GdsBoundary(x) => choose|cc: Seq<Content>| #[trigger] parse_boundary_from(x, cc) && tied_c(pre, post, cc.push(c0(0x11))),
+        GdsElement::GdsPath(x) => choose|cc: Seq<Content>| #[trigger] parse_path_from(x, cc) && tied_c(pre, post, cc.push(c0(0x11))),
+        GdsElement::GdsStructRef(x) => choose|cc: Seq<Content>| #[trigger] parse_struct_ref_from(x, cc) && tied_c(pre, post, cc.push(c0(0x11))),
+        GdsElement::GdsArrayRef(x) => choose|cc: Seq<Content>| #[trigger] parse_array_ref_from(x, cc) && tied_c(pre, post, cc.push(c0(0x11))),
+        GdsElement::GdsTextElem(x) => choose|cc: Seq<Content>| #[trigger] parse_text_elem_from(x, cc) && tied_c(pre, post, cc.push(c0(0x11))),
+        GdsElement::GdsNode(x) => choose|cc: Seq<Content>| #[trigger] parse_node_from(x, cc) && tied_c(pre, post, cc.push(c0(0x11))),
+        GdsElement::GdsBox(x) => choose|cc: Seq<Content>| #[trigger] parse_box_from(x, cc) && tied_c(pre, post, cc.push(c0(0x11))),
+    }
+}
+pub open spec fn opener_num(e: GdsElement) -> u8 {
+    match e { GdsElement::GdsBoundary(_) => 0x08u8, GdsElement::GdsPath(_) => 0x09u8, GdsElement::GdsStructRef(_) => 0x0Au8, GdsElement::GdsArrayRef(_) => 0x0Bu8, GdsElement::GdsTextElem(_) => 0x0Cu8, GdsElement::GdsNode(_) => 0x15u8, GdsElement::GdsBox(_) => 0x2Du8, }
+}
+pub proof fn lemma_elem_seg(pre: GdsParser, post: GdsParser, e: GdsElement)
+    requires elem_post(pre, post, e),
+    ensures elem_seg(e, seq![c0(opener_num(e))] + elem_cc(pre, post, e).push(c0(0x11))), tied_c(pre, post, elem_cc(pre, post, e).push(c0(0x11))),
+{
+    match e {
+        GdsElement::GdsBoundary(x) => { assert(parse_boundary_post(pre, post, x)); }
+        GdsElement::GdsPath(x) => { assert(parse_path_post(pre, post, x)); }
+        GdsElement::GdsStructRef(x) => { assert(parse_struct_ref_post(pre, post, x)); }
+        GdsElement::GdsArrayRef(x) => { assert(parse_array_ref_post(pre, post, x)); }
+        GdsElement::GdsTextElem(x) => { assert(parse_text_elem_post(pre, post, x)); }
+        GdsElement::GdsNode(x) => { assert(parse_node_post(pre, post, x)); }
+        GdsElement::GdsBox(x) => { assert(parse_box_post(pre, post, x)); }
+    }
+}
+pub open spec fn flat(segs: Seq<Seq<Content>>) -> Seq<Content> decreases segs.len() { if segs.len() == 0 { Seq::empty() } else { flat(segs.drop_last()) + segs.last() } }
+pub open spec fn elems_seg(es: Seq<GdsElement>, segs: Seq<Seq<Content>>) -> bool { es.len() == segs.len() && forall|i: int| 0 <= i < es.len() ==> elem_seg(#[trigger] es[i], segs[i]) }
+/// what parse_struct guarantees about the stream: STRNAME, the elements' segments in order, ENDSTR are exactly the records consumed
+pub open spec fn parse_struct_post(pre: GdsParser, post: GdsParser, s: GdsStruct) -> bool {
+    exists|segs: Seq<Seq<Content>>| #[trigger] elems_seg(s.elems@, segs) && tied_c(pre, post, (seq![cs(0x06, string_bytes(&s.name))] + flat(segs)).push(c0(0x07)))
+}
 // ---- what parse_struct and parse_lib return (trace-based functional postconditions) ----
 /// element `e` is of the kind its opening record announces
 pub open spec fn kind_ok(e: GdsElement, open: GdsRecord) -> bool {
@@ -157,11 +287,37 @@ pub open spec fn libb_step(l0: GdsLibraryBuilder, s0: Seq<GdsStruct>, r: GdsReco
         _ => false,
     }
 }
-pub open spec fn libb_fold(tr: Seq<GdsRecord>, l: GdsLibraryBuilder, ss: Seq<GdsStruct>) -> bool decreases tr.len() {
-    if tr.len() == 0 { l.name is None && l.units is None && l.structs is None && ss.len() == 0 }
-    else { exists|l0: GdsLibraryBuilder, s0: Seq<GdsStruct>| libb_fold(tr.drop_last(), l0, s0) && #[trigger] libb_step(l0, s0, tr.last(), l, ss) }
+/// `sseg` are the contents of structure `s` after its BGNSTR record: STRNAME, its elements' segments, ENDSTR
+pub open spec fn struct_seg(s: GdsStruct, sseg: Seq<Content>) -> bool {
+    exists|segs: Seq<Seq<Content>>| #[trigger] elems_seg(s.elems@, segs) && sseg == (seq![cs(0x06, string_bytes(&s.name))] + flat(segs)).push(c0(0x07))
+}
+/// the segment parse_struct consumed for `x` between `pre` and `post` (a witness of its postcondition)
+pub open spec fn struct_sub(pre: GdsParser, post: GdsParser, x: GdsStruct) -> Seq<Content> {
+    let segs = choose|segs: Seq<Seq<Content>>| #[trigger] elems_seg(x.elems@, segs) && tied_c(pre, post, (seq![cs(0x06, string_bytes(&x.name))] + flat(segs)).push(c0(0x07)));
+    (seq![cs(0x06, string_bytes(&x.name))] + flat(segs)).push(c0(0x07))
+}
+pub proof fn lemma_struct_sub(pre: GdsParser, post: GdsParser, x: GdsStruct)
+    requires parse_struct_post(pre, post, x),
+    ensures struct_seg(x, struct_sub(pre, post, x)), tied_c(pre, post, struct_sub(pre, post, x)),
+{}
+/// what follows a library-level record in the stream: a BGNSTR is followed by the segment of the structure just appended; nothing else
+pub open spec fn libb_sub(r: GdsRecord, sub: Seq<Content>, ss: Seq<GdsStruct>) -> bool {
+    match r { GdsRecord::BgnStruct { dates } => ss.len() >= 1 && struct_seg(ss.last(), sub), _ => sub.len() == 0 }
+}
+pub open spec fn libb_link(l0: GdsLibraryBuilder, s0: Seq<GdsStruct>, cc0: Seq<Content>, sub: Seq<Content>, r: GdsRecord, l: GdsLibraryBuilder, ss: Seq<GdsStruct>, cc: Seq<Content>) -> bool {
+    libb_step(l0, s0, r, l, ss) && libb_sub(r, sub, ss) && cc == cc0.push(content(r)) + sub
+}
+pub open spec fn libb_fold(tr: Seq<GdsRecord>, cc: Seq<Content>, l: GdsLibraryBuilder, ss: Seq<GdsStruct>) -> bool decreases tr.len() {
+    if tr.len() == 0 { cc.len() == 0 && l.name is None && l.units is None && l.structs is None && ss.len() == 0 }
+    else { exists|l0: GdsLibraryBuilder, s0: Seq<GdsStruct>, cc0: Seq<Content>, sub: Seq<Content>| libb_fold(tr.drop_last(), cc0, l0, s0) && #[trigger] libb_link(l0, s0, cc0, sub, tr.last(), l, ss, cc) }
 }
 /// library `x` is what the collected fields build
-pub open spec fn lib_fold(tr: Seq<GdsRecord>, ss: Seq<GdsStruct>, x: GdsLibrary) -> bool {
-    exists|l: GdsLibraryBuilder| #[trigger] libb_fold(tr, l, ss) && l.name is Some && x.name == l.name->0 && l.units is Some && x.units == l.units->0 && x.structs@ == ss
+pub open spec fn lib_fold(tr: Seq<GdsRecord>, cc: Seq<Content>, ss: Seq<GdsStruct>, x: GdsLibrary) -> bool {
+    exists|l: GdsLibraryBuilder| #[trigger] libb_fold(tr, cc, l, ss) && l.name is Some && x.name == l.name->0 && l.units is Some && x.units == l.units->0 && x.structs@ == ss
+}
+/// what parse_lib guarantees about the stream: HEADER, BGNLIB, the library-level records (each BGNSTR followed by its structure's segment), ENDLIB
+/// are exactly the records consumed, from the first record of the stream; the look-ahead is then the ENDLIB record
+pub open spec fn parse_lib_post(pre: GdsParser, post: GdsParser, x: GdsLibrary) -> bool {
+    exists|tr: Seq<GdsRecord>, cc: Seq<Content>, ss: Seq<GdsStruct>| #[trigger] lib_fold(tr, cc, ss, x)
+        && tied_c(pre, post, seq![ci(0x00, seq![x.version as int]), ci(0x01, dates12(x.dates))] + cc) && post.nxt is EndLib
 }
